@@ -381,6 +381,23 @@ def rule_isvisible(chk, p, t):
                 d = defs.get(name)
                 if d is None or not isinstance(d, ast.Call) or call_name(d) != fn_ or [unparse(a) for a in d.args] != args:
                     bad.append(f"{name} = {unparse(d) if d is not None else None}")
+            tsu = defs.get("target_sun_unit_vector_eci")
+            from rsa.terms import canon as _canon, inline_locals as _inl
+
+            ok_tsu = False
+            if tsu is not None:
+                e = _inl(m, tsu)
+                if isinstance(e, ast.BinOp) and isinstance(e.op, ast.Div) and isinstance(e.right, ast.Call) and call_name(e.right) == "norm":
+                    want = _canon(ast.parse("sun_eci_position - tgt_eci_state[:3]", mode="eval").body)
+                    inner = e.right.args[0]
+                    from rsa.terms import negated as _neg
+
+                    ok_tsu = _canon(e.left) == _canon(_inl(m, ast.parse("sun_eci_position - tgt_eci_state[:3]", mode="eval").body)) and (
+                        _canon(inner) == _canon(e.left) or _neg(inner, e.left)
+                    )
+                    _ = want
+            if not ok_tsu:
+                bad.append(f"target_sun_unit_vector_eci = `{unparse(tsu) if tsu is not None else None}` (expected the unit vector from the target to the Sun, (sun - target)/|sun - target|)")
             be = defs.get("boresight_eci")
             if be is None or unparse(be) != "tgt_eci_state - self.host.eci_state":
                 bad.append(f"boresight_eci = {unparse(be) if be is not None else None}")
@@ -765,7 +782,14 @@ def run(chk, p, t):
         "geometry, boundary cases of the geometry, noise magnitude."
     )
     chk.assumptions += ["the constraint table (Appendix A.2 of DESIGN.md) lists each Explanation member with the source of its guard", "CFG paths do not include exceptions raised by callees"]
-    steps = [("C02.R1", rule_r1), ("C02.R2", rule_isvisible), ("C02.R5", rule_r5), ("C02.R6", rule_r6), ("C02.R7", rule_r7)]
+    def rule_r8(chk, p, t):
+        # the field-of-view predicate the pipeline relies on: shared instances of C14.R1 / C14.R4
+        from rules import C14
+
+        C14.rule_r1(chk, p, t, rid="C02.R8")
+        C14.rule_r4(chk, p, t, rid="C02.R9")
+
+    steps = [("C02.R1", rule_r1), ("C02.R2", rule_isvisible), ("C02.R5", rule_r5), ("C02.R6", rule_r6), ("C02.R7", rule_r7), ("C02.R8", rule_r8)]
     for rid, fn in steps:
         if chk.only_rule is not None and chk.only_rule not in (rid, "C02.R3", "C02.R4"):
             continue
